@@ -285,6 +285,18 @@ BEGIN
     WHERE node IN (SELECT sink FROM dependency WHERE source = NEW.i);
 END;
 
+-- A step that was deferred because a dynamic input was detached (e.g. while the plan that
+-- declares the producer of that input was being rerun) must get another chance when the input
+-- comes back. Re-attaching a node changes no file state, so nothing else would ever call
+-- Workflow.mark_step_pending() for its consumers, and the deferred step would stay parked
+-- although none of its inputs is unavailable anymore.
+CREATE TRIGGER IF NOT EXISTS step_node_clear_deferred_reattached AFTER UPDATE OF detached ON node
+WHEN OLD.detached AND NOT NEW.detached
+BEGIN
+    UPDATE step SET deferred = 0
+    WHERE deferred AND node IN (SELECT sink FROM dependency WHERE source = NEW.i);
+END;
+
 -- Keep _check_after in sync with duration changes, so the scheduler recomputes
 -- _implied_need/_tail_time for this step (and, via propagation, its sources).
 CREATE TRIGGER IF NOT EXISTS step_flag_check_after_duration AFTER UPDATE OF duration ON step
